@@ -3,3 +3,4 @@
 pub mod header;
 pub mod literal;
 pub mod msg;
+pub mod response;
